@@ -126,6 +126,10 @@ func extractSinglePart(re *syntax.Regexp) *charClassPart {
 		if len(re.Sub) != 1 {
 			return nil
 		}
+		// cc{0} matches only the empty string; maxMatch 0 would mean "unlimited"
+		if re.Max == 0 {
+			return nil
+		}
 		charClass = re.Sub[0]
 		minMatch = re.Min
 		maxMatch = re.Max
